@@ -124,8 +124,9 @@ def arg_for12(fname, i, pn, pt, writer):
 #   R1 GridConnectivity_t: a PointList has at most as many entries as the zone has vertices (Vertex) / cells (CellCenter);
 #      Abutting1to1: the donor list has exactly as many entries as the point set
 #   R2 GridConnectivity1to1_t: PointRange inside [1, VertexSize]; R6: range and donor range span the same number of points
-#   R3 partial / general access to coordinates, solutions, particle data: rmin >= 1 - rind, rmax <= size + rind at the
-#      location of the data (vertex or cell sizes; the templates have no rind planes)
+#   R3 partial / general access to coordinates, solutions, particle data: rmin >= 1 - lower rind, rmax <= size + upper rind at
+#      the location of the data (vertex or cell sizes); solution 3 of the templates has asymmetric rind planes {2,0}; with
+#      CG_CONFIG_RIND_ZERO the bounds are 1 and size + lower + upper rind.  Readers may name any range of the stored extent.
 #   R4 Elements_t: ElementSizeBoundary <= number of elements of the section
 #   R5 Zone_t, Structured: CellSize = VertexSize - 1 in every index dimension
 #   R7 OversetHoles_t: PointRange => 2 points per point set, PointList => one point set
@@ -206,6 +207,16 @@ def bound_variants(name, params, vals):
                 add("bound-min-0" + tag, rmin, 1, **{rmin: "SZ_ZERO", rmax: "DIMV(%d, 0)" % cell}, **mem("DIMV(%d, 0)" % cell), **kw)
                 if cell:
                     add("bound-max-vertexsize" + tag, rmax, 1, **{rmin: "SZ_ONES", rmax: "DIMV(0, 0)"}, **mem("DIMV(0, 0)"), **kw)
+            if "S" in ix:
+                # solution 3 of the templates: asymmetric rind planes (lower > upper) in the first index dimension; the driver
+                # reads them (probe12_rind) and follows the rind indexing of the session (RV: core or zero based)
+                # READERS: a range whose extent equals the stored extent is taken as "everything" whatever its indices (the
+                # documented s_reset_range shortcut of cgi_array_general_verify_range, disabled for writing): a "may" for them
+                reader = re.search(r"_read$", name) is not None
+                for tag, kind, must in (("legal-max-range", 0, 0), ("core-range", 4, 0), ("end+1", 1, 1), ("start-1", 2, 1),
+                                        ("shifted-same-extent", 3, 0 if reader else 1)):
+                    add("bound-rind-%s@Rind" % tag, rmax if kind != 2 else rmin, must, S="3", **{rmin: "RV(%d, 0)" % kind, rmax: "RV(%d, 1)" % kind},
+                        **mem("RV(%d, 2)" % kind))
     # element sections
     if "nbndry" in ix and "start" in ix and "end" in ix:
         add("bound-nbndry-nelem", "nbndry", 0, start="1", end="2", nbndry="2")
@@ -238,7 +249,7 @@ def gen_stubs(d, path):
                                  "/* defined in c12_drv.c (facts about zone (1,1) of the open file) */",
                                  "static cgsize_t g_vd[3], g_cd[3], g_nv, g_nc, g_s1s, g_s1e, g_psz, g_nd2, BIGP[3 * 4096]; static int g_idim, g_cdim;",
                                  "static const cgsize_t *DIMV(int cell, int d0); static const cgsize_t *RNGV(int cell, int dlo, int dhi); "
-                                 "static const cgsize_t *VEC1(cgsize_t a);"], [], {}
+                                 "static const cgsize_t *VEC1(cgsize_t a); static const cgsize_t *RV(int kind, int which);"], [], {}
     for a in api:
         name = a["name"]
         pr = protos[name]
@@ -600,9 +611,11 @@ def select_cases(entries, rng, tier, frac_entries=1.0, all_classes=True, only_va
     return out
 
 
-def run_cases(exe, tmpl, workdir, backend, mode, cases, tag, timeout=1500):
+def run_cases(exe, tmpl, workdir, backend, mode, cases, tag, timeout=1500, extra_env=None):
     """the (entry, variant) pairs split over JOBS driver processes (balanced); -> parsed cases"""
     env = dict(os.environ); env.update(vlib.ASAN_ENV); env["C12_BACKEND"] = backend
+    env.pop("C12_RINDZERO", None)
+    env.update(extra_env or {})
     chunks = [cases[j::JOBS] for j in range(JOBS)]
     procs = []
     for j, ch in enumerate(chunks):
@@ -757,10 +770,11 @@ def run(ck):
     # ---- the property's own oracle
     rng = ck.rng
     BO = "bounds"      # a pass of the state-driven bounds (+ the selecting / navigating entry points) only
+    BZ = "bounds-rindzero"     # the same with cg_configure(CG_CONFIG_RIND_INDEX, CG_CONFIG_RIND_ZERO) in every session
     if big:
         plan = [("adf", "rich12", "modify", 1.0, True, False), ("adf", "bare12", "modify", 1.0, True, False), ("adf", "unstr", "modify", 1.0, True, False),
                 ("adf", "str2d", "modify", 1.0, True, False), ("hdf5", "str2d", "modify", BO, True, False), ("adf", "str2d", "read", BO, True, False),
-                ("adf", "rich12", "write", BO, True, False),
+                ("adf", "rich12", "write", BO, True, False), ("adf", "rich12", "modify", BZ, True, False), ("hdf5", "str2d", "modify", BZ, True, False),
                 ("adf", "rich12", "read", 1.0, True, False), ("adf", "unstr", "read", 0.5, True, False), ("adf", "bare12", "read", 0.5, True, False),
                 ("hdf5", "rich12", "modify", 0.55, True, False), ("hdf5", "bare12", "modify", 1.0, True, False), ("hdf5", "unstr", "modify", 0.5, True, False),
                 ("hdf5", "rich12", "read", 0.25, True, False), ("hdf5", "unstr", "read", 0.25, False, False),
@@ -768,6 +782,7 @@ def run(ck):
     else:
         plan = [("adf", "rich12", "modify", 1.0, False, False), ("adf", "bare12", "modify", 1.0, False, False),
                 ("adf", "unstr", "modify", BO, False, False), ("adf", "str2d", "modify", BO, False, False), ("hdf5", "rich12", "modify", BO, False, False),
+                ("adf", "rich12", "modify", BZ, False, False),
                 ("hdf5", "rich12", "modify", 0.12, False, False), ("hdf5", "bare12", "modify", 0.2, False, False),
                 ("adf", "unstr", "read", 0.2, False, False), ("adf", "bare12", "write", 0.3, False, False)]
     findings, observations, dyn = {}, {}, {"passes": [], "cases": 0, "sanitizer_reports": 0}
@@ -775,9 +790,11 @@ def run(ck):
     bound_ok, bound_seen = set(), set()
     for (b, st, mode, frac, allc, onlyv) in plan:
         t0 = time.time()
-        cases = select_cases(entries, rng, ck.tier, 1.0 if frac == BO else frac, allc, onlyv, probes=big and st == "rich12" and b == "adf", bounds_only=frac == BO)
-        rs = run_cases(exe, tm[(b, st)], work, b, MODES[mode], cases, "%s_%s_%s" % (b, st, mode))
-        cfg = "%s/%s/%s%s" % (b, st, mode, "/bounds" if frac == BO else "")
+        bo = frac in (BO, BZ)
+        cases = select_cases(entries, rng, ck.tier, 1.0 if bo else frac, allc, onlyv, probes=big and st == "rich12" and b == "adf", bounds_only=bo)
+        rs = run_cases(exe, tm[(b, st)], work, b, MODES[mode], cases, "%s_%s_%s%s" % (b, st, mode, "_rz" if frac == BZ else ""),
+                       extra_env={"C12_RINDZERO": "1"} if frac == BZ else None)
+        cfg = "%s/%s/%s%s" % (b, st, mode, "/" + frac if bo else "")
         dyn["passes"].append({"config": cfg, "cases": len(rs), "wall_s": round(time.time() - t0, 1)})
         dyn["cases"] += len(rs)
         ok_here = {c["name"] for c in rs if c["v"] == 0 and c.get("st") == "0" and c.get("out") == "ok"}
@@ -960,7 +977,8 @@ def replay(ck, path):
     tm = make_templates(exe, ck.work)
     if r.get("level") == "inv" and r.get("entry") in idx:
         b, st, mode = r["config"].split("/")[:3] if "config" in r else (r["backend"], r["state"], r["mode"])
-        rs = run_cases(exe, tm[(b, st)], ck.work, b, MODES[mode], [(idx[r["entry"]], 0), (idx[r["entry"]], r["variant"])], "replay")
+        rs = run_cases(exe, tm[(b, st)], ck.work, b, MODES[mode], [(idx[r["entry"]], 0), (idx[r["entry"]], r["variant"])], "replay",
+                       extra_env={"C12_RINDZERO": "1"} if r.get("config", "").endswith("rindzero") else None)
         fails, det = False, []
         for c in rs:
             e = E[c["name"]]
